@@ -70,7 +70,8 @@ static int g_exact = 0;
   X(zh_skip_total) X(zh_skip_bitflip) X(zh_skip_zero_byte) X(zh_skip_ff_byte) X(zh_skip_random_burst) X(zh_skip_zero_burst) \
   X(zh_skip_zero_sector) X(zh_skip_at_block_start) X(zh_skip_single_byte_on_empty_record) \
   X(crc_len_align) X(crc_splits) X(crc_random_bufs) X(crc_random_bytes) X(crc_mask_values) \
-  X(crc_hw_active) X(viol_suppressed)
+  X(crc_hw_active) X(viol_suppressed) X(alt_hdrfix) X(alt_hdrfix_illegal_type) X(alt_hdrfix_illegal_type_on_middle_fragment) \
+  X(alt_hdrfix_legal_type)
 
 #define X(n) CN_##n,
 enum { COUNTERS(X) CN__N };
@@ -1097,8 +1098,15 @@ static void trunc_case(int64_t c) {
 
 /* ------------------------------------------------------------------ mode alter */
 
-enum { K_BIT, K_ZERO, K_FF, K_BURST, K_ZBURST, K_SECTOR, K__N };
-static const char *kind_name[] = {"bitflip", "byte:=00", "byte:=ff", "random-burst", "zero-burst", "zero-sector-512"};
+/* K_HDRFIX: the type byte of a non-empty physical record is replaced (unknown value, 0, or another legal type) and the
+ * CRC field is recomputed to match, i.e. a multi-byte alteration that the checksum cannot catch: the framing state
+ * machine alone decides what comes out.  With a legal new type the bytes may form a valid log (or a legal cut of one),
+ * so only "no alien record" (up to what the reference decoder also accepts) and agreement with the reference are
+ * demanded; with an illegal type the drop must be reported as for any other damage. */
+enum { K_BIT, K_ZERO, K_FF, K_BURST, K_ZBURST, K_SECTOR, K_HDRFIX, K__N };
+static const char *kind_name[] = {"bitflip", "byte:=00", "byte:=ff", "random-burst", "zero-burst", "zero-sector-512",
+                                  "type-byte-with-matching-crc"};
+static int g_hdrfix_legal = 0;
 
 static uint8_t *g_work = NULL;
 static size_t g_workcap = 0;
@@ -1159,6 +1167,7 @@ static void evaluate_alteration(int kind, size_t a, size_t b, uint32_t param) {
     case K_FF: CNT(alt_ff, 1); break;
     case K_BURST: CNT(alt_burst, 1); break;
     case K_ZBURST: CNT(alt_zburst, 1); break;
+    case K_HDRFIX: CNT(alt_hdrfix, 1); break;
     default: CNT(alt_sector, 1); break;
   }
   if (first == (size_t)-1) { CNT(alt_nochange, 1); return; }
@@ -1269,7 +1278,7 @@ static void evaluate_alteration(int kind, size_t a, size_t b, uint32_t param) {
   /* (iii) a loss must be reported */
   lost = G.nrecs - nmatched;
   if (lost > 0) CNT(alt_lossy, 1); else CNT(alt_absorbed, 1);
-  if (lost > 0 && RR.poscalls == 0) {
+  if (lost > 0 && RR.poscalls == 0 && !(kind == K_HDRFIX && g_hdrfix_legal)) {
     uint64_t where = 0;
     int d = diagnose_silence(g_work, size, &where);
     int firstlost = 0;
@@ -1289,7 +1298,7 @@ static void evaluate_alteration(int kind, size_t a, size_t b, uint32_t param) {
       }
     } else if (d == D_ZERO_HEADER) {
       CNT(zh_skip_total, 1);
-      cn_val[CN_zh_skip_bitflip + kind]++;
+      if (kind <= K_SECTOR) cn_val[CN_zh_skip_bitflip + kind]++;
       if (where % B == 0) CNT(zh_skip_at_block_start, 1);
       if (kind <= K_FF) CNT(zh_skip_single_byte_on_empty_record, 1);
       viol("zero-header-silent-skip",
@@ -1357,6 +1366,23 @@ static void apply_alteration(int kind, size_t off, uint32_t param, vrng_t *r) {
       if (b > size) b = size;
       for (i = a; i < b; i++) g_work[i] = kind == K_ZBURST ? 0 : (uint8_t)vr_next(r);
       break;
+    case K_HDRFIX: {
+      const frag_t *f = &G.frags[frag_at(&G, off)];
+      uint32_t sel = (param & 0xff) % 10, val = param >> 8;
+      uint8_t nt;
+      if (f->len == 0 || (size_t)f->hoff + HDR + f->len > size) return;
+      if (sel < 5) nt = (uint8_t)(5 + val % 251);
+      else if (sel < 6) nt = 0;
+      else { nt = (uint8_t)(1 + val % 4); if (nt == f->type) nt = (uint8_t)(1 + nt % 4); }
+      a = (size_t)f->hoff;
+      b = a + HDR;
+      g_work[a + 6] = nt;
+      rc_put_fixed32(g_work + a, rc_crc_mask(rc_crc32c(g_work + a + 6, 1 + (size_t)f->len)));
+      g_hdrfix_legal = nt >= 1 && nt <= 4;
+      if (g_hdrfix_legal) CNT(alt_hdrfix_legal_type, 1);
+      else { CNT(alt_hdrfix_illegal_type, 1); if (f->type == 3) CNT(alt_hdrfix_illegal_type_on_middle_fragment, 1); }
+      break;
+    }
     default:
       a = off & ~(size_t)511;
       b = a + 512 < size ? a + 512 : size;
@@ -1428,6 +1454,12 @@ static void alter_case(int64_t c) {
       apply_alteration(K_FF, off, 0, &r);
       apply_alteration((h >> 3) & 3 ? K_BURST : K_ZBURST, off, h >> 8, &r);
       if ((off & 511) == 0) apply_alteration(K_SECTOR, off, 0, &r);
+      if (G.cls[off] == CL_TYPE) {
+        uint32_t t;
+        apply_alteration(K_HDRFIX, off, (h & 0xffffff00u), &r);          /* an unknown type */
+        apply_alteration(K_HDRFIX, off, 5, &r);                           /* type 0 on a non-empty record */
+        for (t = 0; t < 4; t++) apply_alteration(K_HDRFIX, off, 6 | (t << 8), &r);   /* the other legal types */
+      }
     }
   } else {
     int i;
